@@ -47,7 +47,7 @@ TABLE = {
         nontrivial=lambda n: n["obs"]["vacancy"] >= 0 or (_op(n) == "recv" and _kind(n) == "publish"), profile="qos"),
     "C13": dict(
         quick=["alias_send", "alias_auto", "alias_srv"], thorough=["alias_send", "alias_auto", "alias_srv", "in_qos2_alias", "mps"],
-        rule="a PUBLISH is sent or received on a v5.0 connection with topic aliases in play",
+        rule="a PUBLISH is sent or received on a v5.0 connection with topic aliases in play", quick_edges=45000,
         nontrivial=lambda n: _kind(n) == "publish" and (n["call"]["pkt"]["alias"] != 0 or any(e["ev"] == "send" and e["pkt"]["alias"] for e in n["out"])),
         profile="alias"),
     "C14": dict(
@@ -77,4 +77,4 @@ TABLE = {
 def main(prop, tier, replay=None):
     t = TABLE[prop]
     return endpoint.run(prop, tier, t["quick"], t["thorough"], t["nontrivial"], drive_profile=t["profile"], replay=replay,
-                        extra_rule=t["rule"])
+                        extra_rule=t["rule"], quick_edges=t.get("quick_edges", 30000))
